@@ -271,17 +271,19 @@ def lexPrimM (st : Bool) (inp : List Char) : Lx Event :=
         | .inc => .inc
         | .err => .err
 
-/-- `attr`: `@` + `alt((string_literal, identifier))` + `opt(char('('))`, all streaming: name, has a body, rest. -/
+/-- `attr_name = alt((string_literal, identifier))`, streaming. -/
+def lexName (r : List Char) : Lx (List Char) :=
+  match lexStr r with
+  | .err => lexIdentM true r
+  | x => x
+
+/-- `attr`: `@` + `attr_name` + `opt(char('('))`, all streaming: name, has a body, rest. -/
 def lexAttr (inp : List Char) : Lx (List Char × Bool) :=
   match inp with
   | [] => .inc
   | c :: r =>
     if c = '@' then
-      let name : Lx (List Char) :=
-        match lexStr r with
-        | .err => lexIdentM true r
-        | x => x
-      match name with
+      match lexName r with
       | .ok nm r' =>
         (match r' with
          | [] => .inc
